@@ -181,19 +181,37 @@ def r2(ctx):
             ok = inner.elt in (want, want2)
         ctx.check(ok, ml, f"`{f}`[k] = {fn.split('.')[1]} of cluster k's own list, 0 for an empty cluster", role=f"aggregate:{f}",
                   expected=f"[{fn}(x) if len(x) > 0 else 0 for x in per_cluster]", found=str(inner)[:200])
+        # the weaker fact C03 needs: whatever is averaged, it is never an empty list (numpy.mean([]) is NaN)
+        elt = inner.elt if isinstance(inner, Comp) else inner
+        bare = []
+        for g, v in tm.pieces_of(elt):
+            gparts = {p_.key for p_ in (g.parts if isinstance(g, tm.And) else [g])}
+            for a in tm.subterms(v):
+                if isinstance(a, App) and a.fn in ("numpy.mean", "numpy.median", "numpy.average", "numpy.nanmean", "numpy.nanmedian", "statistics.mean",
+                                                   "statistics.median") and a.args:
+                    n = tm.length(a.args[0])
+                    if n is None or not ({tm.compare(">", n, 0).key, tm.compare("!=", n, 0).key} & gparts):
+                        bare.append(str(a)[:80])
+        ctx.check(not bare, ml, f"`{f}`: no average is taken over a possibly empty list", role=f"empty-guard:{f}",
+                  expected="guarded by len(x) > 0", found="; ".join(bare))
 
 
 @rule("C06", "R3", "FLOW", "the stored cost is the kernel's own cost of the negated likelihood table", floor=4)
 def r3(ctx):
     from . import c01, c09
     ctx.sub(c01.r9)     # cost table = -loglik; stored cost = kernel's second result
-    ctx.sub(c01.r6)     # reported cost = cost of the returned path's start state
+    ctx.sub(c01.r6, only=("start:cost",))   # reported cost = cost of the returned path's start state (which state is C01's business)
     ctx.sub(c01.r1)     # tables are written only by the recurrence
     ctx.sub(c01.r2)
-    ctx.sub(c01.r3)     # the recurrence accounts price b[i] exactly for pairs with different labels
+    # the recurrence accounts price b[i] exactly for pairs with different labels; *which* candidate wins (optimality) is C01's
+    ctx.sub(c01.r3, drop=("recurrence:guard", "recurrence:min-selection"))
+    ctx.sub(c01.r7)     # the returned path follows the stored back-pointers, whose costs were accumulated
     ctx.sub(c01.r4)
-    ctx.sub(c09.r4)     # labels and cost in the result come from one state: the last relabel's
-    ctx.sub(c09.r2)     # nothing relabels or repopulates after the last relabel of a round
+    # labels, cost and likelihood fields in the result come from one state: the last relabel's
+    ctx.sub(c09.r4, drop=("result-field:bayesian", "result-field:calinski", "result-field:markov", r"result-state:\w+@bayesian",
+                          r"result-state:\w+@calinski", r"result-state:\w+@markov"))
+    # nothing refits or relabels after the relabel of a round (the scored means/MRFs are the ones the cost was computed with)
+    ctx.sub(c09.r2, only=("order:", "every-round:relabel"))
 
 
 @rule("C06", "R4", "AGREE", "the multi-series result copies every aggregate field from the master result under the same name", floor=10)
